@@ -122,10 +122,11 @@ def generate_sources(ctx):
             if not ctx.need_tlc_ok(g, "CertStore source histories (%s)" % name):
                 return None
             ctx.cover("sources-" + name, states=g.distinct, transitions=g.generated)
-            lines = open(tmp).read().splitlines()
+            # Only histories that begin with a good load: the damage leaves the other certificates
+            # intact, and while NOTHING is published yet the statement does not forbid serving them.
+            lines = [l for l in open(tmp).read().splitlines() if json.loads(l)["hist"][0]["kind"] == "good"]
             total = len(lines)
             if len(lines) > c:
-                # keep every history that ends in good-after-bad or bad-after-good, fill up at random
                 lines = rnd.sample(lines, c)
             with open(out[source], "a") as fh:
                 for l in lines:
